@@ -1,4 +1,5 @@
 import MuduoVerif.Proofs.TimerProps
+import MuduoVerif.Proofs.TimerSkelTie
 /-!
 # C06 — timers never early, as often as scheduled, in deadline order, none lost
 
@@ -175,5 +176,25 @@ example :
       .add .foreign 2 (.at 1020), .iter, .expire, .now 1060, .now 1061, .now 1061, .iter, .expire, .now 1200, .iter]).trace).map
         (fun r => (r.seq, r.k, r.exp, r.now)) = [(1, 2, 1110, 1200), (3, 1, 1071, 1200), (1, 1, 1050, 1060), (2, 1, 1020, 1060)] := by
   constructor <;> decide
+
+/-- T1, statement order: in every function of `TimerQueue.cc` / `Timer.cc` the model implements the source performs
+the same significant actions - clock readings, system calls, `new Timer` / `delete`, dereferences of a `Timer*`, set
+operations, hand-offs to the loop, calls inside the engine, stores, `return` - in the same order and under the same
+nesting of the generated guards and loops as `Model/Timer.lean` (`Model/TimerSkelDecl.lean`); re-extracted from /repo on
+every run (`Generated/TimerSkel.lean`), proved in `Proofs/TimerSkelTie.lean` -/
+theorem statement_order_tied :
+    Gen.TimerSkel.howMuchTimeFromNow = TimerSkel.Decl.howMuchTimeFromNow ∧
+    Gen.TimerSkel.readTimerfd = TimerSkel.Decl.readTimerfd ∧
+    Gen.TimerSkel.resetTimerfd = TimerSkel.Decl.resetTimerfd ∧
+    Gen.TimerSkel.addTimer = TimerSkel.Decl.addTimer ∧
+    Gen.TimerSkel.cancel = TimerSkel.Decl.cancel ∧
+    Gen.TimerSkel.addTimerInLoop = TimerSkel.Decl.addTimerInLoop ∧
+    Gen.TimerSkel.cancelInLoop = TimerSkel.Decl.cancelInLoop ∧
+    Gen.TimerSkel.handleRead = TimerSkel.Decl.handleRead ∧
+    Gen.TimerSkel.getExpired = TimerSkel.Decl.getExpired ∧
+    Gen.TimerSkel.reset = TimerSkel.Decl.reset ∧
+    Gen.TimerSkel.insert = TimerSkel.Decl.insert ∧
+    Gen.TimerSkel.restart = TimerSkel.Decl.restart :=
+  TimerSkel.skeletons_agree
 
 end MuduoVerif.C06
